@@ -135,6 +135,14 @@ def read_tail(path, n=6000):
         return ""
 
 
+def crash_excerpt(text):
+    for marker in ("ERROR: AddressSanitizer", "runtime error:", "Bug detected in", "Fatal Python error"):
+        i = text.find(marker)
+        if i >= 0:
+            return text[max(0, i - 100): i + 1800]
+    return text[-1500:]
+
+
 def save_replay(prop, subcheck, case, message, extra=None):
     d = os.path.join(VERIF, "replays", prop)
     os.makedirs(d, exist_ok=True)
@@ -281,8 +289,8 @@ def do_check(mod, prop, tier, seed, scratch, a, t0):
             except Exception:
                 pass
             logp = job["out"].replace("res", "log").replace(".json", ".txt")
-            tail = read_tail(logp)
-            msg = f"worker {info.get('died')} rc={info.get('rc')}; last lines:\n{tail[-1500:]}"
+            tail = crash_excerpt(read_tail(logp, 200000))
+            msg = f"worker {info.get('died')} rc={info.get('rc')}:\n{tail}"
             if case is None:
                 harness.append(f"{name}: worker died before any case: {msg}")
             else:
